@@ -853,15 +853,6 @@ class Model(Object):
                     )
 
                 if context:
-                    # terms of the reaction's variables in constraints other than
-                    # the mass balances (which `_populate_solver` rebuilds) leave
-                    # the problem with the variables: put them back on undo
-                    for cons in self.constraints:
-                        if cons.name in self.metabolites:
-                            continue
-                        coefs = cons.get_linear_coefficients([forward, reverse])
-                        if any(coefs.values()):
-                            context(partial(cons.set_linear_coefficients, dict(coefs)))
                     context(partial(self._populate_solver, [reaction]))
                     context(partial(setattr, reaction, "_model", self))
                     context(partial(self.reactions.add, reaction))
